@@ -178,6 +178,17 @@ def run_dsop(w, s):
                 models.append(_perturbed_model(m, dim, s["shift"] * i))
             else:
                 models.append(_perturbed_model(m))
+        if s.get("secondary_differs") and s.get("align"):
+            # one secondary axis lacks a label in the last dataset: only align=True can join them
+            mm = models[-1]
+            sec = [d_ for d_ in mm.used() if d_ != dim and len(mm.dims[d_]["labels"]) >= 2]
+            if sec:
+                d_ = sec[0]
+                mm.dims[d_]["labels"] = mm.dims[d_]["labels"][:-1]
+                for v_ in mm.vars.values():
+                    if d_ in v_["dims"]:
+                        ax_ = v_["dims"].index(d_)
+                        v_["values"] = np.take(v_["values"], range(v_["values"].shape[ax_] - 1), axis=ax_)
         reals = [ds] if not m.unused else []
         for mm in models[len(reals):]:
             g = _guard(lambda: _real_from_model(mm))
